@@ -255,7 +255,148 @@ func (tg *txGen) randomValid(max int) {
 
 // "cltv", "csv", "wit-empty": the spent output's script fails only under a flag that the node derives from the block's
 // HEIGHT (BIP65, BIP112, BIP141) — the same scripts pass when a block is verified with the flags of height 0.
-var invalidKinds = []string{"double-spend", "missing", "immature", "script", "overspend", "cb-overpay", "vout-range", "own-coinbase", "wrong-key", "cltv", "csv", "wit-empty"}
+// "order": every transaction of the block is valid and every input exists — but at least one transaction stands BEFORE the
+// transaction of the same block whose output it spends (a block's outputs become spendable in list order only).
+var invalidKinds = []string{"double-spend", "missing", "immature", "script", "overspend", "cb-overpay", "vout-range", "own-coinbase", "wrong-key", "cltv", "csv", "wit-empty", "order"}
+
+// inBlockDeps[i] = positions (in txs) of the transactions whose outputs txs[i] spends.
+func inBlockDeps(txs []*btc.Tx) [][]int {
+	pos := map[[32]byte]int{}
+	for i, t := range txs {
+		pos[t.Hash.Hash] = i
+	}
+	deps := make([][]int, len(txs))
+	for i, t := range txs {
+		for _, in := range t.TxIn {
+			if j, ok := pos[in.Input.Hash]; ok && j != i {
+				deps[i] = append(deps[i], j)
+			}
+		}
+	}
+	return deps
+}
+
+// isTopological: does every transaction of the list (given as a permutation of positions) come after all the
+// transactions of the list it spends from?
+func isTopological(perm []int, deps [][]int) bool {
+	at := make([]int, len(perm))
+	for p, i := range perm {
+		at[i] = p
+	}
+	for i, ds := range deps {
+		for _, j := range ds {
+			if at[j] > at[i] {
+				return false
+			}
+		}
+	}
+	return true
+}
+
+func permute(txs []*btc.Tx, perm []int) []*btc.Tx {
+	out := make([]*btc.Tx, len(txs))
+	for p, i := range perm {
+		out[p] = txs[i]
+	}
+	return out
+}
+
+// topoShuffle: a uniformly drawn "next ready transaction" order — every in-block spend still follows the transaction it
+// spends from, everything else moves (the valid side of the ordering rule).
+func (s *scen) topoShuffle(txs []*btc.Tx) []*btc.Tx {
+	deps := inBlockDeps(txs)
+	placed := make([]bool, len(txs))
+	var perm []int
+	for len(perm) < len(txs) {
+		var ready []int
+		for i := range txs {
+			if placed[i] {
+				continue
+			}
+			ok := true
+			for _, j := range deps[i] {
+				ok = ok && placed[j]
+			}
+			if ok {
+				ready = append(ready, i)
+			}
+		}
+		if len(ready) == 0 { // cannot happen (a spend cycle needs a hash collision)
+			return txs
+		}
+		x := ready[s.g.Intn(len(ready))]
+		placed[x] = true
+		perm = append(perm, x)
+	}
+	return permute(txs, perm)
+}
+
+// misorder returns the transactions in an order in which at least one of them precedes a transaction of the list that
+// it spends from (nil when the list has no in-block spend). mode 0: one child moved to the place just before its
+// parent (everything else stays: the boundary of the rule); 1: one child moved to the front (directly behind the
+// coinbase), its parent to the end; 2: the whole list reversed; 3: a random permutation that is not a topological order.
+func (s *scen) misorder(txs []*btc.Tx, mode int) []*btc.Tx {
+	g := s.g
+	deps := inBlockDeps(txs)
+	var pairs [][2]int // (child, parent)
+	for i, ds := range deps {
+		for _, j := range ds {
+			pairs = append(pairs, [2]int{i, j})
+		}
+	}
+	if len(pairs) == 0 {
+		return nil
+	}
+	pr := pairs[g.Intn(len(pairs))]
+	c, p := pr[0], pr[1]
+	var perm []int
+	switch mode {
+	case 0:
+		for i := range txs {
+			if i == c {
+				continue
+			}
+			if i == p {
+				perm = append(perm, c)
+			}
+			perm = append(perm, i)
+		}
+	case 1:
+		perm = append(perm, c)
+		for i := range txs {
+			if i != c && i != p {
+				perm = append(perm, i)
+			}
+		}
+		perm = append(perm, p)
+	case 2:
+		for i := len(txs) - 1; i >= 0; i-- {
+			perm = append(perm, i)
+		}
+	default:
+		for try := 0; ; try++ {
+			perm = perm[:0]
+			for i := range txs {
+				perm = append(perm, i)
+			}
+			for i := len(perm) - 1; i > 0; i-- {
+				j := g.Intn(i + 1)
+				perm[i], perm[j] = perm[j], perm[i]
+			}
+			if !isTopological(perm, deps) {
+				break
+			}
+			if try > 20 {
+				return s.misorder(txs, 0)
+			}
+		}
+	}
+	if isTopological(perm, deps) {
+		return nil
+	}
+	r.Hit(fmt.Sprintf("tx-order/misordered/mode=%d", mode))
+	return permute(txs, perm)
+}
 
 // makeBlock builds a block on parent: random valid transactions and, for kind != "", one rule violation.
 // In the mixed-bits stream every block is light (minimum difficulty) or heavy at random.
@@ -380,6 +521,46 @@ func (s *scen) makeBlockL(parent *rBlock, kind string, allEver map[outpoint]rCoi
 			}
 			tg.spend([]outpoint{fake}, 1, 0, false)
 		}
+	case "order":
+		// an in-block chain parent -> child (-> grandchild), the child possibly with a second input from the branch's
+		// unspent set; then the list is put into an order that breaks at least one of these links
+		for try := 0; try < 3; try++ {
+			ops := tg.spendable(false)
+			if len(ops) == 0 {
+				break
+			}
+			par := tg.spend([]outpoint{ops[g.Intn(len(ops))]}, 1+g.Intn(3), 0, false)
+			links := 1 + g.Intn(2)
+			made := 0
+			for l := 0; l < links; l++ {
+				var mine []outpoint
+				for _, op := range tg.spendable(true) {
+					if op.Txid == par.Hash.Hash {
+						mine = append(mine, op)
+					}
+				}
+				if len(mine) == 0 {
+					break // every output of the parent got an unspendable script: try another parent
+				}
+				pick := []outpoint{mine[g.Intn(len(mine))]}
+				if rest := tg.spendable(false); len(rest) > 0 && g.Chance(1, 3) {
+					pick = append(pick, rest[g.Intn(len(rest))])
+				}
+				par = tg.spend(pick, 1+g.Intn(2), 0, false)
+				made++
+			}
+			if made > 0 {
+				break
+			}
+		}
+		s.lastOrdered = append([]*btc.Tx{}, tg.txs...)
+		mode := s.orderMode
+		if mode < 0 {
+			mode = g.Intn(4)
+		}
+		if mis := s.misorder(tg.txs, mode); mis != nil {
+			tg.txs = mis
+		}
 	case "cb-overpay":
 		fees := s.feesOf(ctx.view, tg.txs)
 		bo.cbOuts = []chainkit.OutSpec{{Value: subsidy(h) + fees + 1 + uint64(g.Intn(5)), Script: chainkit.AnyoneScript}}
@@ -397,6 +578,11 @@ func (s *scen) makeBlockL(parent *rBlock, kind string, allEver map[outpoint]rCoi
 		tg.spend([]outpoint{op}, 1, 0, false)
 		bo.cbExtra = extra
 		bo.cbOuts = []chainkit.OutSpec{{Value: subsidy(h), Script: chainkit.AnyoneScript}}
+	}
+	if s.reorder && kind != "order" && len(tg.txs) > 1 && g.Chance(1, 2) {
+		// any order in which every in-block spend follows the transaction it spends from is as good as the order of creation
+		tg.txs = s.topoShuffle(tg.txs)
+		r.Hit("tx-order/topological-shuffle")
 	}
 	bo.txs = tg.txs
 	if bo.cbOuts == nil && g.Chance(1, 3) { // multi-output coinbase claiming at most subsidy + fees
@@ -430,6 +616,7 @@ func (s *scen) makeBlockL(parent *rBlock, kind string, allEver map[outpoint]rCoi
 
 func genRandom(s *scen, size int) {
 	g := s.g
+	s.reorder = true
 	baseTip := s.base(101 + g.Intn(8))
 	if s.dead {
 		return
